@@ -150,8 +150,8 @@ func (c *SymbolNode) Ancestry() []rune {
 			// Copy the parent's text: appending to the parent's cached slice
 			// would share its backing array between sibling nodes
 			c.ancestry = append([]rune{}, c.parent.Ancestry()...)
-		}
-		if c.character != 0 {
+			// Every node but the root stands for one character of the symbol,
+			// whichever character that is
 			c.ancestry = append(c.ancestry, c.character)
 		}
 	}
